@@ -17,8 +17,9 @@ C05 = [
       "list of u8, len <= 6; start, end, step: every Option<i64>; output Vec replaced by a push log",
       "as c05_list_slice_l4, longer lists", raises=True, tiers=("thorough",)),
     H("c05_list_slice_real_vec_l3", "c05", ["incan_stdlib::collections::list_slice"],
-      "list of u8, len <= 3; every Option<i64> triple; REAL Vec output (validates the push-log stub)",
-      "as c05_list_slice_l4 with the real output container", raises=True, tiers=("thorough",), timeout_thorough=2400),
+      "list of u8, len <= 3; every Option<i64> triple with a non-zero step; REAL Vec output (validates the push-log stand-in)",
+      "as c05_list_slice_l4 with the real output container", raises=False, tiers=("thorough",), timeout_thorough=2400,
+      optional_covers={"zero step"}),
     H("c05_range_step", "c05", ["incan_stdlib::iter::range", "<incan_stdlib::iter::PyRange as Iterator>::next"],
       "every (a, b, c) in i64^3 with c != 0; one inductive step from the arbitrary state + exhausted-state stability",
       "next() yields Some(a) iff Python's range(a,b,c) is non-empty; afterwards the state equals range(a+c,b,c), or, when "
@@ -96,9 +97,10 @@ def _c19(n, tiers, tq=300, tt=1800, opt=()):
     ]
 
 
-C19 = _c19(2, ("quick", "thorough"), opt=_C19_SMALL_OPT) + _c19(4, ("quick",)) + _c19(6, ("thorough",)) + [
-    H("c19_roundtrip_n8", "c19", _C19_FUNCS, "every valid-UTF-8 document of <= 8 bytes; every boundary offset",
-      "round trip + counting oracle, 8-byte documents", tiers=("thorough",), needs_compiler=True, timeout_thorough=2400)]
+C19 = (_c19(2, ("quick", "thorough"), opt=_C19_SMALL_OPT) + _c19(6, ("quick",), tq=600) + _c19(8, ("thorough",), tt=2400) + [
+    H(f"c19_{fn}_n{n}", "c19", _C19_FUNCS, f"every valid-UTF-8 document of <= {n} bytes",
+      f"{fn} obligation on documents of up to {n} bytes", tiers=("thorough",), needs_compiler=True, timeout_thorough=3600)
+    for n, fn in ((10, "roundtrip"), (10, "monotone"), (10, "span"), (12, "roundtrip"))])
 
 # ---- C07 ---------------------------------------------------------------------------------------------------
 C07 = [
@@ -132,10 +134,12 @@ C11 = [
       "rendering for the terminal cannot panic (no slice off a char boundary, no underflow/overflow in the caret arithmetic)",
       tiers=(), needs_compiler=True, timeout_quick=600),
     H("c11_format_error_n4", "c11", _C11F, "every valid-UTF-8 source of <= 4 bytes; every span with start, end <= 6; all 5 kinds",
-      "as n3", tiers=("quick", "thorough"), needs_compiler=True, timeout_quick=900, timeout_thorough=1800),
-    H("c11_format_error_n5", "c11", _C11F, "every valid-UTF-8 source of <= 5 bytes; every span with start, end <= 7",
-      "as n3", tiers=("thorough",), needs_compiler=True, timeout_thorough=2400),
+      "as n3", tiers=("quick",), needs_compiler=True, timeout_quick=900, timeout_thorough=1800),
     H("c11_format_error_n6", "c11", _C11F, "every valid-UTF-8 source of <= 6 bytes; every span with start, end <= 8",
+      "as n3", tiers=("quick", "thorough"), needs_compiler=True, timeout_quick=900, timeout_thorough=3600),
+    H("c11_format_error_n8", "c11", _C11F, "every valid-UTF-8 source of <= 8 bytes; every span with start, end <= 10",
+      "as n3", tiers=("thorough",), needs_compiler=True, timeout_thorough=3600),
+    H("c11_format_error_n10", "c11", _C11F, "every valid-UTF-8 source of <= 10 bytes; every span with start, end <= 12",
       "as n3", tiers=("thorough",), needs_compiler=True, timeout_thorough=3600),
 ]
 
@@ -151,7 +155,7 @@ C14 = [
 ]
 
 # the editor half of C11 ("rendering it for the editor never fails", ranges well-formed) is the span obligation of C19
-C11 += [h for h in C19 if h.name in ("c19_span_n4", "c19_span_n6")]
+C11 += [h for h in C19 if h.name in ("c19_span_n6", "c19_span_n8")]
 
 C19.insert(0, H("c19_utf8_validator_matches_std_n4", "c19", ["(harness) valid_utf8 vs core::str::from_utf8"],
                  "every byte string of <= 4 bytes", "the byte-wise UTF-8 validator the harnesses assume documents by agrees with "
